@@ -78,6 +78,10 @@ impl Resp {
 pub fn sid(id: &Id) -> String {
     if id.is_nil() {
         "nil".into()
+    } else if crate::world::numeric_ids() {
+        // digit-only ids share a long prefix: the distinguishing part is the tail
+        let s = id.simple().to_string();
+        format!("..{}", &s[24..])
     } else {
         id.simple().to_string()[..8].to_string()
     }
